@@ -27,24 +27,17 @@ def sh(cmd, cwd=None, env=None, timeout=3600):
     return p.returncode, p.stdout + p.stderr
 
 
-import threading
-
-_GIT_LOCK = threading.Lock()  # git worktree add/remove of one repository must not run concurrently
-
-
 def worktree():
+    """A scratch copy of /repo's HEAD under /tmp (an export, not a linked worktree: nothing is shared
+    with /repo's git metadata, so any number of these can be made and removed concurrently)."""
     wt = tempfile.mkdtemp(prefix="sw.", dir="/tmp")
-    os.rmdir(wt)
-    with _GIT_LOCK:
-        rc, out = sh(["git", "-C", "/repo", "worktree", "add", "-q", "--detach", wt, "HEAD"])
-    if rc:
-        raise SystemExit("cannot create worktree: " + out)
+    rc, out = sh("git -C /repo archive HEAD | tar -x -C %s" % wt)
+    if rc or not os.path.isdir(os.path.join(wt, "netconan")):
+        raise SystemExit("cannot export /repo HEAD: " + out)
     return wt
 
 
 def rm_worktree(wt):
-    with _GIT_LOCK:
-        sh(["git", "-C", "/repo", "worktree", "remove", "--force", wt])
     shutil.rmtree(wt, ignore_errors=True)
 
 
@@ -82,12 +75,12 @@ def confirm(src, pid, name):
                 "test_suite_with_change": "%d passed (exit %d)" % (passed, rct),
                 "demo_with_change": "exit %d: %s" % (rc1, out1.strip().splitlines()[-1][:300] if out1.strip() else ""),
                 "commands": [
-                    "git -C /repo worktree add --detach <scratch> HEAD",
+                    "git -C /repo archive HEAD | tar -x -C <scratch>",
                     "PYTHONPATH=<scratch> /venv/bin/python demo.py",
                     "git -C <scratch> apply patch.diff",
                     "cd <scratch> && /venv/bin/python -m pytest -q -p no:cacheprovider",
                     "PYTHONPATH=<scratch> /venv/bin/python demo.py",
-                    "git -C /repo worktree remove --force <scratch>",
+                    "rm -rf <scratch>",
                 ],
             },
             "detected_by": {},
